@@ -176,7 +176,7 @@ theorem txSet_RI (cfg : Cfg) (b k : Nat) (v : Int) (ttl : Option Nat) : Rel (RI 
   rel_steps (RI.pre cfg.timeout)
   all_goals ri_leaf
 
-theorem txIncr_RI (cfg : Cfg) (b k : Nat) : Rel (RI cfg.timeout) (txIncr cfg b k) := by
+theorem txIncr_RI (cfg : Cfg) (b k : Nat) (ttl : Option Nat) : Rel (RI cfg.timeout) (txIncr cfg b k ttl) := by
   unfold txIncr
   simp only [bind_eq, pure_eq]
   rel_steps (RI.pre cfg.timeout)
@@ -215,18 +215,39 @@ theorem txDelMany_RI (cfg : Cfg) (b : Nat) (ks : List Nat) : Rel (RI cfg.timeout
   rel_steps (RI.pre cfg.timeout)
   all_goals first | exact wrap_RI _ _ | exact lockAll_RI _ _ _ | ri_leaf
 
+theorem txExists_RI (cfg : Cfg) (b k : Nat) : Rel (RI cfg.timeout) (txExists cfg b k) := by
+  unfold txExists
+  simp only [bind_eq, pure_eq]
+  rel_steps (RI.pre cfg.timeout)
+  all_goals ri_leaf
+
+theorem txSetIf_RI (cfg : Cfg) (b k : Nat) (v : Int) (ttl : Option Nat) (ex : Bool) :
+    Rel (RI cfg.timeout) (txSetIf cfg b k v ttl ex) := by
+  unfold txSetIf
+  simp only [bind_eq, pure_eq]
+  rel_steps (RI.pre cfg.timeout)
+  all_goals first | exact wrap_RI _ _ | exact txExists_RI _ _ _ | ri_leaf
+
+theorem txExpire_RI (cfg : Cfg) (b k ttl : Nat) : Rel (RI cfg.timeout) (txExpire cfg b k ttl) := by
+  unfold txExpire
+  simp only [bind_eq, pure_eq]
+  rel_steps (RI.pre cfg.timeout)
+  all_goals first | exact wrap_RI _ _ | ri_leaf
+
 theorem emit_RI (T : Nat) (r : Reply) : Rel (RI T) (emit r) := Rel.modW _ fun _ h => h
 
 theorem bodyStep_RI (cfg : Cfg) (c : BodyCmd) : Rel (RI cfg.timeout) (bodyStep cfg c) := by
   cases c <;> unfold bodyStep <;> simp only [bind_eq]
   · exact Rel.bind (RI.pre _) (txSet_RI _ _ _ _ _) fun _ => emit_RI _ _
-  · exact Rel.bind (RI.pre _) (txIncr_RI _ _ _) fun _ => emit_RI _ _
+  · exact Rel.bind (RI.pre _) (txIncr_RI _ _ _ _) fun _ => emit_RI _ _
   · exact Rel.bind (RI.pre _) (txGet_RI _ _ _) fun _ => emit_RI _ _
   · exact Rel.bind (RI.pre _) (txDelete_RI _ _ _) fun _ => emit_RI _ _
   · exact adv_RI _ _
   · exact Rel.throw (RI.pre _) _
   · exact Rel.bind (RI.pre _) (txSetMany_RI _ _ _ _) fun _ => emit_RI _ _
   · exact Rel.bind (RI.pre _) (txDelMany_RI _ _ _) fun _ => emit_RI _ _
+  · exact Rel.bind (RI.pre _) (txExpire_RI _ _ _ _) fun _ => emit_RI _ _
+  · exact Rel.bind (RI.pre _) (txSetIf_RI _ _ _ _ _ _) fun _ => emit_RI _ _
 
 theorem runBody_RI (cfg : Cfg) (body : List BodyCmd) : Rel (RI cfg.timeout) (runBody cfg body) := by
   induction body with
